@@ -120,6 +120,44 @@ CLAIMED["C20"] = row("§5 C20 / §15",
     "Trusted: fontTools GPOS reader, fontTools.unicodedata.",
     "exhaustive enumeration of configuration product with a ScriptList reachability invariant")
 
+CLAIMED["C04"] = row("§5 C04 / §15",
+    "BFS 'append glyph' (advance x outline kind; vertical metrics; code points) to depth 3-5 over flavour {TTF, CFF, "
+    "CFF2} x vertical on/off x .notdef {explicit, synthesised, empty} x keepGlyphNames; every prefix is a compiled "
+    "state; saved bytes == re-saved bytes (lazy and fully decompiled) and every derived field of "
+    "hmtx/hhea/vmtx/vhea/head/maxp/post/VORG/OS2 is recomputed from the stored glyph data, on the reloaded font "
+    "and on the returned TTFont object.",
+    "Trusted: fontTools table readers. Sequences > 5 glyphs and curves with off-curve extrema are outside the bound.",
+    "explicit-state BFS over glyph-append histories with recomputation oracle for derived fields")
+CLAIMED["C09"] = row("§5 C09 / §15",
+    "Families of 2-4 point-compatible masters over all 144 ordered pairs of a 12-cubic palette (122 pairs need "
+    "different segment counts when converted alone) x BFS over structure ops (components, differing 2x2, nesting, "
+    "mixed glyphs, sparse layers, skipExportGlyphs, per-master filters) to depth 2/3 x the three interpolatable "
+    "entry points; per-glyph point/flag/component/operator structure must be identical in all returned masters.",
+    "Trusted: fontTools glyf/CFF readers. > 4 masters, > 2 axes are outside the bound.",
+    "explicit-state BFS over master-family construction histories with a cross-master structural-equality invariant")
+CLAIMED["C10"] = row("§5 C10 / §15",
+    "Complete product of 4 master topologies x axis map x per-master kerning presence patterns ({absent, v1, v2} for a "
+    "class pair and its exception in every master) x per-master anchors x {TTF, CFF2} x variableFeatures {on, off}; the "
+    "variable font is instantiated at every full master location and compared with the interpolatable master "
+    "(+-1 unit), with the master UFO kerning (all ordered pairs through the GPOS interpreter) and anchors.",
+    "Trusted: fontTools.varLib.instancer as evaluator of the variable font, mc/otl_ref.py, mc/kern_ref.py.",
+    "exhaustive enumeration of master families with instancer-based replay against per-master reference data")
+CLAIMED["C12"] = row("§5 C12 / §15",
+    "Every packed font (C01 tries, deviations, width x default/nominal-width pairs, repeated-subpath and degenerate "
+    "segment fonts) x roundTolerance is compiled with all 18 combinations optimizeCFF x subroutinizer x cffVersion; "
+    "unsupported ones must raise NotImplementedError; per glyph the decoded drawing, hmtx, the CFF1 charstring's own "
+    "width and GPOS/GSUB/GDEF bytes are compared across combinations.",
+    "Trusted: fontTools CFF reader/charstring interpreter.",
+    "exhaustive enumeration of the option product over packed glyph tries with a differential drawing oracle")
+CLAIMED["C13"] = row("§5 C13 / §15",
+    "All component graphs of 3 dependent glyphs over lower-indexed bases (single / mixed / double references, 2-4 "
+    "transforms) + a mark glyph; in every state ALL 31 skip subsets are compiled (TTF, OTF; argument, UFO lib, "
+    "UFO-list union, designspace lib; static, interpolatable, variable) and compared with the unskipped compile: "
+    "glyph order, cmap, hmtx, contour multisets, TrueType component lists, GDEF classes, kerning and mark "
+    "attachment of every remaining pair.",
+    "Trusted: fontTools readers, mc/otl_ref.py. Straight-line integer outlines only (TrueType component rounding).",
+    "exhaustive enumeration of component graphs x all skip subsets with a differential (skip vs no-skip) oracle")
+
 NOT_APPLICABLE = {}
 
 
